@@ -28,7 +28,12 @@ pub struct Sc16 {
     pub callers: usize,
     pub peer: Vec<PStep>,
     pub label: String,
+    /// wait() is called by a real thread that may enter it at any time (before or after the
+    /// shutdown requests / the disconnect) instead of by the explorer at quiescence
+    pub waiter: bool,
 }
+
+type Daemon = VhostUserDaemon<TBackend<VringRwLock, ()>>;
 
 pub struct St {
     h: H,
@@ -37,6 +42,12 @@ pub struct St {
     handles: Vec<std::thread::JoinHandle<()>>,
     peer_closed: bool,
     sent_bytes: usize,
+    /// step counters for "was the shutdown flag stored before the daemon thread exited?"
+    step_no: usize,
+    flag_step: Option<usize>,
+    d_exit_step: Option<usize>,
+    /// result of the waiter thread's wait() and the daemon it owned meanwhile
+    slot: Arc<std::sync::Mutex<Option<(String, Daemon)>>>,
 }
 
 fn request_bytes() -> Vec<u8> {
@@ -47,13 +58,13 @@ fn request_bytes() -> Vec<u8> {
 impl Scenario for Sc16 {
     type S = St;
     fn name(&self) -> String {
-        format!("{}callers-{}", self.callers, self.label)
+        format!("{}callers-{}{}", self.callers, self.label, if self.waiter { "+waiter" } else { "" })
     }
     fn expected_threads(&self) -> usize {
-        2 + self.callers
+        2 + self.callers + self.waiter as usize
     }
     fn setup(&self, x: &mut Exec) -> Result<St, String> {
-        let h = H::new(Cfg::default());
+        let mut h = H::new(Cfg::default());
         let handle = h.daemon.as_ref().unwrap().shutdown_handle().ok_or("no shutdown handle")?;
         let mut handles = Vec::new();
         for i in 0..self.callers {
@@ -70,8 +81,29 @@ impl Scenario for Sc16 {
                     .unwrap(),
             );
         }
+        let slot: Arc<std::sync::Mutex<Option<(String, Daemon)>>> = Arc::new(std::sync::Mutex::new(None));
+        if self.waiter {
+            let mut d = h.daemon.take().ok_or("no daemon")?;
+            let slot2 = slot.clone();
+            let ctl = x.ctl.clone();
+            handles.push(
+                std::thread::Builder::new()
+                    .name("waiter".into())
+                    .spawn(move || {
+                        sysshim::sched_point(Point::User("enter-wait"), &|| true);
+                        let r = d.wait();
+                        let txt = match &r {
+                            Ok(()) => "Ok".to_string(),
+                            Err(e) => format!("Err({e:?})"),
+                        };
+                        *slot2.lock().unwrap() = Some((txt, d));
+                        ctl.exited();
+                    })
+                    .unwrap(),
+            );
+        }
         x.ctl.quiesce(self.expected_threads())?;
-        Ok(St { h, p_pos: 0, waited: None, handles, peer_closed: false, sent_bytes: 0 })
+        Ok(St { h, p_pos: 0, waited: None, handles, peer_closed: false, sent_bytes: 0, step_no: 0, flag_step: None, d_exit_step: None, slot })
     }
     fn env_names(&self) -> Vec<String> {
         vec!["P".into()]
@@ -97,7 +129,19 @@ impl Scenario for Sc16 {
             }
         }
     }
-    fn after_step(&self, _s: &mut St, _info: &StepInfo, _x: &mut Exec) {}
+    fn after_step(&self, s: &mut St, info: &StepInfo, x: &mut Exec) {
+        s.step_no += 1;
+        if let Actor::Thread(n) = &info.actor {
+            // the step that leaves a caller's start point runs shutdown() up to the socket shutdown:
+            // the flag is stored in it
+            if n.starts_with("shutdown") && info.point == Some(Point::User("start")) && s.flag_step.is_none() {
+                s.flag_step = Some(s.step_no);
+            }
+        }
+        if s.d_exit_step.is_none() && x.ctl.snapshot().iter().any(|p| p.0.starts_with("vmc-daemon") && p.1 == PState::Exited) {
+            s.d_exit_step = Some(s.step_no);
+        }
+    }
 
     fn finish(&self, s: &mut St, x: &mut Exec) {
         let snap = x.ctl.snapshot();
@@ -121,14 +165,37 @@ impl Scenario for Sc16 {
         if !d_exited {
             return; // idle peer, nobody asked for a shutdown: nothing to wait for
         }
-        // M: wait()
-        let r = s.h.daemon.as_mut().unwrap().wait();
-        let txt = match &r {
-            Ok(()) => "Ok".to_string(),
-            Err(e) => format!("Err({e:?})"),
+        // M: wait() - by the waiter thread (which must have returned by now), else by the explorer
+        let (txt, ok): (String, bool) = if self.waiter {
+            match s.slot.lock().unwrap().take() {
+                Some((txt, d)) => {
+                    s.h.daemon = Some(d);
+                    let ok = txt == "Ok";
+                    (txt, ok)
+                }
+                None => {
+                    x.violation("C16:wait-never-returns", &format!("the daemon thread has exited but the thread inside wait() never returned: {:?}", snap.iter().find(|p| p.0.starts_with("waiter")).map(|p| (p.1.clone(), point_label(&p.2)))));
+                    return;
+                }
+            }
+        } else {
+            let r = s.h.daemon.as_mut().unwrap().wait();
+            match &r {
+                Ok(()) => ("Ok".to_string(), true),
+                Err(e) => (format!("Err({e:?})"), false),
+            }
         };
+        let r: Result<(), ()> = if ok { Ok(()) } else { Err(()) };
         s.waited = Some(txt.clone());
-        if shutdown_requested {
+        // With a waiter thread a request that arrives only after the daemon thread has already ended
+        // (because of the disconnect) may or may not be seen by wait(): both results are accepted then.
+        let late_request = self.waiter && match (s.flag_step, s.d_exit_step) {
+            (Some(f), Some(d)) => f >= d,
+            _ => false,
+        };
+        if late_request {
+            // nothing to demand about the result
+        } else if shutdown_requested {
             if r.is_err() {
                 x.violation("C16:wait-fails-after-shutdown", &format!("shutdown was requested but wait() returned {txt}"));
             }
@@ -176,11 +243,20 @@ impl Scenario for Sc16 {
     }
 
     fn teardown(&self, s: St) {
-        let St { h, handles, .. } = s;
-        drop(h);
+        let St { mut h, handles, slot, .. } = s;
+        // everything runs freely from here; closing the peer ends the daemon thread, which lets a
+        // thread still inside wait() return
+        sysshim::sched_release();
+        h.peer = None;
         for t in handles {
             let _ = t.join();
         }
+        if h.daemon.is_none() {
+            if let Some((_, d)) = slot.lock().unwrap().take() {
+                h.daemon = Some(d);
+            }
+        }
+        drop(h);
     }
 }
 
@@ -221,7 +297,17 @@ fn scenarios(thorough: bool) -> Vec<Sc16> {
                     continue;
                 }
             }
-            v.push(Sc16 { callers, peer: p.clone(), label: l.clone() });
+            v.push(Sc16 { callers, peer: p.clone(), label: l.clone(), waiter: false });
+        }
+    }
+    // wait() entered by a real thread at any time relative to the shutdown requests / the disconnect
+    for callers in 0..=2usize {
+        for (l, p) in &peers {
+            let pick: &[&str] = if thorough { &["idle", "full-request", "two-fragments", "close-at-0", "close-at-5", "close-at-12", "close-after-request", "invalid-header"] } else if callers == 2 { &["idle", "close-at-0"] } else { &["idle", "two-fragments", "close-at-0", "close-at-12"] };
+            if !pick.contains(&l.as_str()) || (callers == 0 && l == "idle") {
+                continue;
+            }
+            v.push(Sc16 { callers, peer: p.clone(), label: l.clone(), waiter: true });
         }
     }
     v
@@ -344,29 +430,57 @@ pub fn run(rep: &mut Report) {
     close_offsets(rep);
     let scs = scenarios(thorough);
     let start = std::time::Instant::now();
-    let total = if thorough { 1500.0 } else { 42.0 };
+    let total = if thorough { 2400.0 } else { 90.0 };
     let mut done = 0;
+    let mut per_scenario: Vec<Value> = Vec::new();
     for sc in &scs {
         let remaining = total - start.elapsed().as_secs_f64();
         if remaining < 1.0 {
             rep.caps.push(format!("wall budget {total}s: {done} of {} scenarios explored", scs.len()));
             break;
         }
-        let bound = if thorough { 3 } else if sc.callers >= 3 { 1 } else { 2 };
-        let st = explore(sc, bound, 120, remaining.min(if thorough { 100.0 } else { 4.0 }), rep, "C16", &outcome);
+        // bounds are chosen so that no scenario needs its wall cap (the cap is a safety net only):
+        // three callers, or two callers plus a waiter thread, get one preemption at quick
+        let bound = if thorough { if sc.waiter && sc.callers >= 2 { 2 } else { 3 } } else if sc.callers >= 3 || (sc.waiter && sc.callers >= 2) { 1 } else { 2 };
+        let t0 = std::time::Instant::now();
+        let st = explore(sc, bound, 120, remaining.min(if thorough { 150.0 } else { 12.0 }), rep, "C16", &outcome);
         rep.states += st.states;
         rep.traces += st.schedules;
+        per_scenario.push(json!({"scenario": sc.name(), "bound": bound, "schedules": st.schedules, "by_preemptions": st.by_preemptions, "capped": st.capped, "wall_s": (t0.elapsed().as_secs_f64() * 100.0).round() / 100.0}));
         done += 1;
     }
     rep.extra.insert("scenarios".into(), json!(done));
     rep.extra.insert("scenarios_total".into(), json!(scs.len()));
-    rep.rule = "E2: for 0..=3 shutdown callers x peer behaviours {idle, header only, full request, 2 and 3 fragments, close at byte 0/5/12/15/after the request (more offsets at thorough), invalid header}: all schedules of {daemon thread, shutdown callers (a point before the call and at the socket shutdown, i.e. between flag store and socket shutdown), peer script} with at most 2 (3 at thorough) preemptions; at quiescence the explorer performs wait(), reads the peer socket and starts a second connection on the same listener. Sequential part: peer close at every byte offset 0..=20 of a request x {start+wait, serve()} and the process's thread count after dropping all daemons. Non-trivial = schedules with a real choice / offsets whose result mapping was verified".into();
-    rep.assumptions.push("wait() is executed by the explorer once the daemon thread has exited; 'would never return' is decided when the daemon thread is disabled forever".into());
+    rep.extra.insert("per_scenario".into(), json!(per_scenario));
+    rep.rule = "E2: for 0..=3 shutdown callers x peer behaviours {idle, header only, full request, 2 and 3 fragments, close at byte 0/5/12/15/after the request (more offsets at thorough), invalid header}: all schedules of {daemon thread, shutdown callers (a point before the call and at the socket shutdown, i.e. between flag store and socket shutdown), peer script} with at most 2 (3 at thorough) preemptions; at quiescence the explorer performs wait(), reads the peer socket and starts a second connection on the same listener; in the '+waiter' scenarios (0..=2 callers) wait() is instead called by a real thread that enters it at any point of the schedule (before or after the shutdown requests / the disconnect) and blocks in the join. Sequential part: peer close at every byte offset 0..=20 of a request x {start+wait, serve()} and the process's thread count after dropping all daemons. Non-trivial = schedules with a real choice / offsets whose result mapping was verified".into();
+    rep.assumptions.push("without a waiter thread wait() is executed by the explorer once the daemon thread has exited; 'would never return' is decided when the daemon thread is disabled forever; a thread blocked in the join is recognised through /proc (futex wait)".into());
 }
 
 pub fn replay(case: &Value, rep: &mut Report) {
-    println!("replay C16 by re-running the quick exploration; case: {case}");
-    run(rep);
+    install_panic_watch();
+    let name = case["scenario"].as_str().unwrap_or("");
+    let sched: Vec<usize> = case["schedule"].as_array().map(|a| a.iter().map(|x| x.as_u64().unwrap_or(0) as usize).collect()).unwrap_or_default();
+    match scenarios(true).into_iter().find(|sc| sc.name() == name) {
+        Some(sc) => match run_schedule(&sc, &sched, 120) {
+            Ok(r) => {
+                println!("trace: {:?}", r.trace);
+                for (sg, w) in &r.violations {
+                    println!("violation {sg}: {w}");
+                    rep.violation(sg, w, case.clone());
+                }
+                rep.evaluations += 1;
+            }
+            Err(e) => {
+                eprintln!("MACHINERY FAILURE: {e}");
+                std::process::exit(2);
+            }
+        },
+        None => {
+            // sequential part (close offsets): cheap, re-run it
+            println!("replay C16: sequential part; case: {case}");
+            close_offsets(rep);
+        }
+    }
 }
 
 #[allow(dead_code)]
